@@ -1,9 +1,9 @@
-CONSTANT P = 5
-CONSTANT ALPHA = 3
+CONSTANT P = 13
+CONSTANT ALPHA = 5
 CONSTANT GEN = 2
 CONSTANT DropKind = "none"
 CONSTANT DropIdx = 0
-CONSTANT Cases <- Cases5
+CONSTANT Cases <- Cases13T
 CONSTANT Sel = {}
 INIT InitRows
 NEXT NextRows
